@@ -66,6 +66,8 @@ pub struct LwRun {
     pub sets: BTreeMap<(usize, usize), NodeSets>,
     /// rule name -> used (code is generated for it)
     pub used_rules: BTreeMap<String, bool>,
+    /// span of a rule declaration -> span of its body regex
+    pub rule_spans: BTreeMap<(usize, usize), (usize, usize)>,
 }
 
 fn regex_kind(r: &ast::Regex) -> &'static str {
@@ -158,6 +160,10 @@ pub fn analyze(text: &str) -> LwRun {
             for rule in file.rule_decls(cst) {
                 if let Some((name, _)) = rule.name(cst) {
                     run.used_rules.insert(name.to_string(), sema.used.contains(&rule.syntax()));
+                }
+                if let Some(body) = rule.regex(cst) {
+                    let (d, b) = (cst.span(rule.syntax()), cst.span(body.syntax()));
+                    run.rule_spans.insert((d.start, d.end), (b.start, b.end));
                 }
             }
         }
